@@ -1019,7 +1019,7 @@ func genDAG(t *rapid.T) c11Case {
 	c := c11Case{U: universe{Keys: []string{"k1", "k2"}}}
 	c.Pre = []reqSpec{instReq("keyvalue", "kv"), {M: "POST", Path: "node/{n0}/kv/key/k1", Body: "v0"}}
 	c.Shape = pickShape(t, "dag", []string{"newversion-newversion", "newversion-newversion", "branch-newversion", "branch-branch-same-name", "branch-branch-diff-names",
-		"commit-post", "newinstance-same-name", "newinstance-diff-names"}, "branch-branch-diff-names")
+		"commit-post", "newinstance-same-name", "newinstance-diff-names", "merge-newversion-same-parent", "merge-branch-same-parent"}, "branch-branch-diff-names")
 	commit := func(n string) reqSpec { return reqSpec{M: "POST", Path: "node/" + n + "/commit", Body: `{"note":"c"}`} }
 	nv := func(n, note string) reqSpec {
 		return reqSpec{M: "POST", Path: "node/" + n + "/newversion", Body: fmt.Sprintf(`{"note":%q}`, note)}
@@ -1029,6 +1029,23 @@ func genDAG(t *rapid.T) c11Case {
 	}
 	parent := "{n0}"
 	versionShape := strings.HasPrefix(c.Shape, "newversion") || strings.HasPrefix(c.Shape, "branch")
+	if strings.HasPrefix(c.Shape, "merge-") {
+		// a committed side branch {n1} off the committed root: merge(root, {n1}) against a new version / branch made from {n1}
+		c.Pre = append(c.Pre, commit("{n0}"), br("{n0}", "side", "setup"), reqSpec{M: "POST", Path: "node/{n1}/kv/key/k2", Body: "v1"}, commit("{n1}"))
+		mg := reqSpec{M: "POST", Path: "repo/{n0}/merge", Body: `{"mergeType":"conflict-free","parents":["{n1}","{n0}"],"note":"m"}`}
+		if rapid.Bool().Draw(t, "merge_parent_order") {
+			mg.Body = `{"mergeType":"conflict-free","parents":["{n0}","{n1}"],"note":"m"}`
+		}
+		if c.Shape == "merge-newversion-same-parent" {
+			c.Reqs = []reqSpec{mg, nv("{n1}", "r1")}
+		} else {
+			c.Reqs = []reqSpec{mg, br("{n1}", "b1", "r1")}
+		}
+		if rapid.Bool().Draw(t, "merge_second") {
+			c.Reqs[0], c.Reqs[1] = c.Reqs[1], c.Reqs[0]
+		}
+		return c
+	}
 	if versionShape {
 		c.Pre = append(c.Pre, commit("{n0}"))
 		switch rapid.IntRange(0, 2).Draw(t, "parent_kind") {
